@@ -155,10 +155,18 @@ def run(repo, chk):
                f"when {' and '.join(exp[0])}: returns {exp[1]}" + ("" if got == exp else f" -- found {got}"))
     chk.ob("R11.1", "tags.match_tag:no-extra-rows", len(rows) == len(EXPECT_MATCH_TAG), mt.where, f"{len(rows)} decision rows")
     ce = repo.func("selector.check_element")
-    rows = decision_table(ce.node)
-    for i, exp in enumerate(EXPECT_CHECK_ELEMENT):
-        got = rows[i] if i < len(rows) else None
-        chk.ob("R11.1", f"selector.check_element:row{i + 1}", got == exp, ce.where, f"when {' and '.join(exp[0])}: returns {exp[1]}" + ("" if got == exp else f" -- found {got}"))
+    # read as a truth function of its three tests (whether it is written as an if chain, one boolean expression or a mixture)
+    from ..astq import truth_table
+    pe, pn, pc = [a.arg for a in ce.node.args.args[:3]] if len(ce.node.args.args) >= 3 else ("el", "name", "category")
+    atoms = [f"{pe}.name is not None", f"{pe}.name != {pn}", f"match_tag({pe}.category, {pc})"]
+    tt = truth_table(ce.node, atoms)
+    named_other = [b for b in tt if b[0] and b[1]]
+    rest = [b for b in tt if not (b[0] and b[1])]
+    bad1 = [b for b in named_other if tt[b] is not False]
+    bad2 = [b for b in rest if tt[b] is not b[2]]
+    chk.ob("R11.1", "selector.check_element:row1", not bad1, ce.where, f"an element that names another variable never matches (whatever the tags)" + (f" -- answers {[(b, tt[b]) for b in bad1]}" if bad1 else ""))
+    chk.ob("R11.1", "selector.check_element:row2", not bad2, ce.where,
+           "otherwise (no name, or this name) the answer is match_tag(requested category, variable's tags)" + (f" -- answers {[(b, tt[b]) for b in bad2]} for (named, other name, tag match)" if bad2 else ""))
 
     # ---------------- R11.2
     cls, H, stats = Q.templates(repo, chk.tier)
